@@ -233,6 +233,9 @@ class PureEval:
 
     def p_Tuple(self, e):
         vals = [self.ev(x) for x in e.elts]
+        tys = {str(getattr(v, "ty", None)) for v in vals}
+        if vals and len(tys) > 1:
+            return STuple(list(vals))
         return self.ex.mk_seq(vals, self.st)
 
     p_List = p_Tuple
